@@ -21,7 +21,8 @@ pub struct C05;
 
 const HUB_ADDR: &str = "axelar1hub";
 // (one trusted name has upper-case letters: names are compared and announced as they were given)
-const CHAINS: [&str; 3] = ["ethereum", "Avalanche-Fuji", "sui"];
+// (the third name is the token service's own chain name: a chain name like any other once the owner trusts it)
+const CHAINS: [&str; 3] = ["ethereum", "Avalanche-Fuji", "stellar"];
 const NU: usize = 4; // users
 const START_ASSET: i128 = 1000;
 const START_GAS: i128 = 50;
